@@ -5,6 +5,7 @@ Writer/reader schema agreement, entirely structural.
 from __future__ import annotations
 
 import ast
+from ..core import utext
 import re
 
 from ..core import (DESCRIPTOR_CLASSES, GRAPH_CLASSES, AnalysisError, DefUse,
@@ -137,8 +138,8 @@ def run(prog: Program, res: Result, tier: str) -> None:
                for t in st.targets if isinstance(t, ast.Name)]
     if len(members) < 3:
         raise AnalysisError("Change members not found")
-    wtxt = ast.unparse(w.node)
-    rtxt = ast.unparse(r.node)
+    wtxt = utext(w.node)
+    rtxt = utext(r.node)
     excl = None
     for node in ast.walk(w.node):
         if isinstance(node, (ast.GeneratorExp, ast.ListComp)) and norm(
@@ -154,7 +155,7 @@ def run(prog: Program, res: Result, tier: str) -> None:
             norm(d, 300) for d in DefUse(w.node).dep_nodes(wn.value))
         loops = [n for n in ast.walk(r.node) if isinstance(n, ast.For)
                  and f"'{section}'" in norm(n.iter)]
-        ok_r = any(f"add_{role}_bond(" in ast.unparse(l) for l in loops)
+        ok_r = any(f"add_{role}_bond(" in utext(l) for l in loops)
         if ok_w and ok_r:
             res.ok("J-ENUM", inst, w.loc(wn))
         else:
@@ -263,7 +264,7 @@ def run(prog: Program, res: Result, tier: str) -> None:
                         f"`{norm(node.values[0])}`, expected (stereo.atoms, "
                         "stereo.parity)", instance=inst)
     res.need("J-PAYLOAD", n_payload, 4, "payload sites in as_dict")
-    ptxt = ast.unparse(pl.node)
+    ptxt = utext(pl.node)
     rets = [n for n in ast.walk(pl.node) if isinstance(n, ast.Return)
             and isinstance(n.value, ast.Call)]
     inst = "reader: _stereo_from_payload(class(atoms, parity))"
